@@ -164,12 +164,17 @@ def run(tier, res, force_search=False):
             L, S = gen_LS(rng)
             if kind in ("tiny", "subannual", "oneyear") and rng.random() < 0.5:
                 twin = (kind, dates, datesO, L, S)
-        probes.check_calendar(dates, problems_all)
+        enc = probes.pick_kind(rng)  # the same days in one of the time encodings the library accepts
+        shown, shownO = probes.present(dates, enc), probes.present(datesO, enc)
+        probes.check_calendar(dates, problems_all, presented=shown)
         with warnings.catch_warnings():
             warnings.simplefilter("ignore")
-            doyF, doyO = day_of_year(dates), day_of_year(datesO)
+            try:
+                doyF, doyO = day_of_year(shown), day_of_year(shownO)
+            except Exception:  # noqa: BLE001  (reported by check_calendar)
+                continue
         norm, centres, adj, winF, winO, problems = real_cover_doy(L, S, doyF, doyO)
-        case = {"kind": kind, "start": str(dates[0]), "n": int(dates.size), "L": L, "S": S}
+        case = {"kind": kind, "start": str(dates[0]), "n": int(dates.size), "L": L, "S": S, "time_encoding": enc}
         for p in problems:
             problems_all.append((p, {"what": "RunningWindowOverDaysOfYear", **case}))
         lines.append(f"postinit {L} {S}")
